@@ -374,4 +374,14 @@ def main(argv: list[str]) -> int:
     ap.add_argument("--only")
     a = ap.parse_args(argv)
     sys.path.insert(0, str(ROOT))
-    return run_property(a.prop.lower(), a.tier, a.seed, a.update_ledger, a.only)
+    try:
+        return run_property(a.prop.lower(), a.tier, a.seed, a.update_ledger, a.only)
+    except SystemExit:
+        raise
+    except BaseException as e:  # noqa: BLE001
+        # a crash of the checker is a FAULT (exit 3), never an exit code that could be read as a violation
+        import traceback
+
+        traceback.print_exc()
+        print(f"FAULT property={a.prop.upper()} the checker crashed: {type(e).__name__}: {str(e)[:200]}")
+        return 3
